@@ -1,6 +1,7 @@
 package verifh
 
 import (
+	"io"
 	"io/fs"
 	"os"
 	"sort"
@@ -50,6 +51,9 @@ type VFs struct {
 	// SortDirs makes Readdir/Readdirnames(-1) results deterministic (sorted), then applies Perm if set.
 	SortDirs bool
 	Perm     func(n int) []int
+	// EagerEOF makes files report io.EOF together with the last bytes (legal for io.Reader and io.ReaderAt; os files
+	// report it only on the next call, other backends - archives, network filesystems, in-memory ones - at once).
+	EagerEOF bool
 }
 
 func newVFs(inner afero.Fs, label string) *VFs {
@@ -272,6 +276,13 @@ func (f *VFile) Read(p []byte) (int, error) {
 		}
 	}
 	n, err := f.File.Read(p)
+	if f.v.EagerEOF && n > 0 && err == nil {
+		if fi, e1 := f.File.Stat(); e1 == nil && !fi.IsDir() {
+			if pos, e2 := f.File.Seek(0, io.SeekCurrent); e2 == nil && pos >= fi.Size() {
+				err = io.EOF
+			}
+		}
+	}
 	if f.v.After != nil {
 		f.v.After(FsEvent{Op: "Read", Path: f.path, Handle: f.h, N: n})
 	}
@@ -282,6 +293,11 @@ func (f *VFile) ReadAt(p []byte, off int64) (int, error) {
 		return 0, ft.Err
 	}
 	n, err := f.File.ReadAt(p, off)
+	if f.v.EagerEOF && n > 0 && err == nil {
+		if fi, e1 := f.File.Stat(); e1 == nil && off+int64(n) >= fi.Size() {
+			err = io.EOF
+		}
+	}
 	if f.v.After != nil {
 		f.v.After(FsEvent{Op: "ReadAt", Path: f.path, Handle: f.h, N: n})
 	}
